@@ -176,6 +176,7 @@ type PolyCtx struct {
 	// elem(<slice>)[<index>], and every symbol remembers the SSA value it stands for.
 	G              bool
 	symVal         map[string]ssa.Value
+	lenSymVal      map[string]ssa.Value // len(...) symbol -> the slice value it measures
 	elemStored     map[string]bool
 	loadMemo       map[*ssa.UnOp]Poly
 	opArgs         map[string][]Poly
@@ -678,6 +679,15 @@ func (c *PolyCtx) of(v ssa.Value) Poly {
 				if kind := minMaxKind(callee); kind != "" {
 					return c.opaque(kind, v, c.Of(x.Call.Args[0]), c.Of(x.Call.Args[1]))
 				}
+				// a pure arithmetic helper (one block, integer arithmetic on its parameters) is
+				// evaluated in place, so that moving a formula into a helper changes nothing
+				var as []Poly
+				for _, a := range x.Call.Args {
+					as = append(as, c.Of(a))
+				}
+				if p, ok := c.inlinePure(callee, as, 0); ok {
+					return p
+				}
 			}
 		}
 		name := CalleeName(&x.Call)
@@ -754,6 +764,91 @@ func (c *PolyCtx) sliceSym(v ssa.Value) Poly {
 	return c.opaque("slice", v)
 }
 
+// inlinePure evaluates the result of a single-block function that only does integer
+// arithmetic on its parameters, with the given argument polynomials.
+func (c *PolyCtx) inlinePure(fn *ssa.Function, args []Poly, depth int) (Poly, bool) {
+	if depth > 3 || fn == nil || len(fn.Blocks) != 1 || len(fn.Params) != len(args) || len(fn.FreeVars) > 0 {
+		return nil, false
+	}
+	env := map[ssa.Value]Poly{}
+	for i, prm := range fn.Params {
+		if !isIntLike(prm.Type()) {
+			return nil, false
+		}
+		env[prm] = args[i]
+	}
+	var eval func(v ssa.Value) (Poly, bool)
+	eval = func(v ssa.Value) (Poly, bool) {
+		if p, ok := env[v]; ok {
+			return p, true
+		}
+		switch x := v.(type) {
+		case *ssa.Const:
+			if n, ok := constInt(x); ok {
+				return polyConst(n), true
+			}
+		case *ssa.BinOp:
+			a, ok1 := eval(x.X)
+			b, ok2 := eval(x.Y)
+			if !ok1 || !ok2 || !isIntLike(x.Type()) {
+				return nil, false
+			}
+			switch x.Op {
+			case token.ADD:
+				return a.Add(b), true
+			case token.SUB:
+				return a.Sub(b), true
+			case token.MUL:
+				return a.Mul(b), true
+			case token.QUO, token.REM:
+				return c.opaque(x.Op.String(), x, a, b), true
+			case token.SHL:
+				if k, ok := b.IsConst(); ok && k >= 0 && k < 62 {
+					return a.Mul(polyConst(1 << uint(k))), true
+				}
+			}
+		case *ssa.Convert:
+			if isIntLike(x.Type()) && isIntLike(x.X.Type()) && intSize(x.Type()) >= intSize(x.X.Type()) {
+				return eval(x.X)
+			}
+		case *ssa.ChangeType:
+			return eval(x.X)
+		case *ssa.UnOp:
+			if x.Op == token.SUB {
+				if a, ok := eval(x.X); ok {
+					return a.Neg(), true
+				}
+			}
+		case *ssa.Call:
+			if callee := x.Call.StaticCallee(); callee != nil {
+				var as []Poly
+				for _, a := range x.Call.Args {
+					p, ok := eval(a)
+					if !ok {
+						return nil, false
+					}
+					as = append(as, p)
+				}
+				return c.inlinePure(callee, as, depth+1)
+			}
+		}
+		return nil, false
+	}
+	for _, in := range fn.Blocks[0].Instrs {
+		switch x := in.(type) {
+		case *ssa.Return:
+			if len(x.Results) != 1 {
+				return nil, false
+			}
+			return eval(x.Results[0])
+		case *ssa.BinOp, *ssa.Convert, *ssa.ChangeType, *ssa.UnOp, *ssa.DebugRef, *ssa.Call:
+		default:
+			return nil, false
+		}
+	}
+	return nil, false
+}
+
 // lenOf: len of a slice value; slices of slices are resolved arithmetically.
 func (c *PolyCtx) lenOf(v ssa.Value) Poly {
 	t := v.Type().Underlying()
@@ -802,6 +897,12 @@ func (c *PolyCtx) lenOf(v ssa.Value) Poly {
 	}
 	s := c.sliceSym(v)
 	name := "len(" + strings.ReplaceAll(s.String(), "*", "·") + ")"
+	if c.lenSymVal == nil {
+		c.lenSymVal = map[string]ssa.Value{}
+	}
+	if _, ok := c.lenSymVal[name]; !ok {
+		c.lenSymVal[name] = v
+	}
 	return polySym(name)
 }
 
